@@ -194,12 +194,28 @@ def _history_tree(d):
     h = d["hist"]
     tsep = d["tsep"]
     root, _nodes = core.build_node_tree(h["tree0"], sep=tsep)
-    bigtree.add_path_to_tree(root, tsep.join(h["warm"]), sep=tsep)
+    if h.get("copy"):
+        # the tree that is extended is a COPY taken before the original was extended: it must not see that extension
+        cp = root.copy()
+        bigtree.add_path_to_tree(root, tsep.join(h["warm"]), sep=tsep)
+        _ = [n.path_name for n in [root] + list(root.descendants)]
+        root = cp
+        h = dict(h, edit=["none", [root.node_name]])
+    else:
+        bigtree.add_path_to_tree(root, tsep.join(h["warm"]), sep=tsep)
     kind, comps = h["edit"][0], h["edit"][1]
     x = root
     for c in comps[1:]:
         x = next(k for k in x.children if k.node_name == c)
-    if kind == "detach":
+    if kind == "none":
+        pass
+    elif kind == "sortrev":
+        x.sort(key=lambda n: n.node_name, reverse=True)
+    elif kind == "replace":
+        p = x.parent
+        x.parent = None
+        bigtree.Node(h["edit"][2], parent=p)
+    elif kind == "detach":
         x.parent = None
     elif kind == "rename":
         x.name = h["edit"][2]
@@ -277,6 +293,54 @@ def add_history(rng, case):
     nd = dict(d, tree=tw, hist={"tree0": tree0, "warm": warm, "edit": edit, "peek": rng.random() < 0.5},
               start=rng.choice([0, 0, rng.randrange(core.spec_size(tw))]))
     return mk(nd, tuple(case.tags) + ("history", "hist:" + kind))
+
+
+def wide_history_case(rng):
+    """a parent with 10-13 children; an earlier add_path_to_tree call looks a child up below it; then a change that keeps
+    the NUMBER of children (children sorted in reverse, one child renamed, one child replaced by a fresh node); then the
+    final add_* call goes through a child of that parent again"""
+    import copy
+    k = rng.randint(10, 13)
+    kids = [["k%02d" % i, {}, ([["g", {}, []]] if rng.random() < 0.3 else [])] for i in range(k)]
+    rng.shuffle(kids)
+    tree0 = ["r", {}, kids]
+    i = rng.randrange(k)
+    warm = ["r", kids[i][0], "w0"]
+    tw = _spec_add(copy.deepcopy(tree0), warm)
+    kind = rng.choice(["sortrev", "rename", "replace"])
+    j = rng.randrange(k)
+    target = tw[2][j]
+    if kind == "sortrev":
+        edit = ["sortrev", ["r"]]
+        tw[2].sort(key=lambda t: t[0], reverse=True)
+    elif kind == "rename":
+        edit = ["rename", ["r", target[0]], "zq"]
+        target[0] = "zq"
+    else:
+        edit = ["replace", ["r", target[0]], "zn"]
+        tw[2].remove(target)
+        tw[2].append(["zn", {}, []])
+    through = rng.choice(tw[2])[0]
+    fn = rng.choice(["addpath", "adddict"])
+    items = [[["r", through, "z"], 0, 0, {"v": 1}]]
+    if fn == "adddict":
+        items.append([["r", rng.choice(tw[2])[0], "y", "x"], 0, 0, {}])
+    d = {"fn": fn, "sep": "/", "dup": True, "tsep": "/", "tree": tw, "start": 0, "items": items, "rep": 1, "share": False,
+         "hist": {"tree0": tree0, "warm": warm, "edit": edit, "peek": rng.random() < 0.5}}
+    return mk(d, (fn, "history", "hist:wide-" + kind))
+
+
+def copy_history_case(rng):
+    """the tree being extended is a copy (`root.copy()`) of a small tree - often a single node - whose ORIGINAL is
+    extended in between: the copy must be independent of it"""
+    size = rng.choice([1, 1, 1, 2, 3])
+    tree0 = ["r", {}, [["c%d" % i, {}, []] for i in range(size - 1)]]
+    warm = ["r", rng.choice(["x", "c0"]), "y"]
+    fn = rng.choice(["addpath", "adddict"])
+    items = [[["r", rng.choice(["x", "z", "c0"]), "q"], 0, 0, {"v": 2}]]
+    d = {"fn": fn, "sep": "/", "dup": True, "tsep": "/", "tree": tree0, "start": 0, "items": items, "rep": 1, "share": False,
+         "hist": {"tree0": tree0, "warm": warm, "edit": ["none", ["r"]], "copy": True}}
+    return mk(d, (fn, "history", "hist:copy"))
 
 
 def _call(d):
@@ -731,6 +795,10 @@ def gen(rng: random.Random, tier: str):
                 h = add_history(rng, c)
                 if h is not None:
                     cases.append(h)
+    for _ in range(60 if tier == "quick" else 600):
+        cases.append(wide_history_case(rng))
+    for _ in range(30 if tier == "quick" else 300):
+        cases.append(copy_history_case(rng))
     return cases
 
 
